@@ -14,6 +14,7 @@ type Opts struct {
 	MaxBody    int     // upper bound for generated body sizes
 	SizeParams bool    // add SIZE= parameters (truthful, lying, malformed)
 	SmallLimit bool    // pick small MaxMessageBytes so that bodies straddle it (C06)
+	Caps       bool    // 30 % of the configurations carry a mailbox message cap of 1-3 (store field "file:1")
 }
 
 var labels = []string{"a", "b", "ab", "x-y", "example", "com", "org", "mail", "Ex", "COM", "m1"}
@@ -77,6 +78,9 @@ func GenCfg(g *vh.Gen, o Opts) (Cfg, []string) {
 	c.RejO = genList(g, pool, true)
 	if o.SmallLimit {
 		c.MaxBytes = g.Pick2(1, 10, 100, 1000, 5000, 65536)
+	}
+	if o.Caps && g.Chance(0.3) {
+		c.Store += ":" + g.Pick("1", "1", "2", "3")
 	}
 	return c, pool
 }
